@@ -487,6 +487,34 @@ def configuration_twins(chk, F, rng):
                 raise
             chk.violation("twin:relations-file-path", "fill_cij(table, <path to relations file>) raises %s: %s" % (type(e).__name__, str(e)[:120]),
                           dict(system_argument="path to a copy of constraints/" + system))
+        # (4) history: the same path now holds the relations of another system -- the file's current content must be used
+        try:
+            base2 = pandas.DataFrame({"V": [100.0, 90.0], "c11": [300.0, 320.0], "c12": [100.0, 110.0], "c13": [90.0, 95.0],
+                                      "c33": [280.0, 300.0], "c44": [80.0, 85.0]})
+            with warnings.catch_warnings():
+                warnings.simplefilter("ignore")
+                ref2 = F.fill_cij(base2.copy(), "hexagonal")
+            shutil.copy(get_data_fname("constraints/hexagonal"), relfile)
+            with warnings.catch_warnings():
+                warnings.simplefilter("ignore")
+                out2 = F.fill_cij(base2.copy(), relfile)
+            bad = None
+            if sorted(c.lower() for c in out2.columns) != sorted(c.lower() for c in ref2.columns):
+                bad = "columns %s instead of %s" % (list(out2.columns), list(ref2.columns))
+            else:
+                for c in ref2.columns:
+                    if numpy.abs(numpy.asarray(out2[c], dtype=float) - numpy.asarray(ref2[c], dtype=float)).max() > 1e-9:
+                        bad = "column %s differs" % c
+            if bad:
+                chk.violation("twin:relations-file-rewritten", "a relations file rewritten (cubic -> hexagonal relations) between two calls with the "
+                              "same path is not used with its current content: %s" % bad, {})
+            else:
+                chk.side_check("twin relations file rewritten between two calls", True)
+        except BaseException as e:
+            if isinstance(e, (KeyboardInterrupt, SystemExit)):
+                raise
+            chk.violation("twin:relations-file-rewritten", "fill_cij(table, <path>) raises %s: %s after the relations file at that path was "
+                          "rewritten with the hexagonal relations (it held the cubic ones at the previous call)" % (type(e).__name__, str(e)[:100]), {})
     finally:
         os.chdir(cwd)
         shutil.rmtree(tmp, ignore_errors=True)
